@@ -116,7 +116,7 @@ fn kw_int(kw: &Kw, n: &str, min: i128, max: u128) -> Result<Option<i128>, ()> {
             }
             return Err(());
         }
-        Some(MVal::Float(f)) if f.is_finite() && f.trunc() == *f && *f >= -1.7e38 && *f < 1.7e38 => *f as i128,
+        Some(MVal::Float(f)) if f.is_finite() && f.trunc() == *f && *f >= -1.7014118346046923e38 && *f < 1.7014118346046923e38 => *f as i128,
         Some(_) => return Err(()),
     };
     if v < min || (v >= 0 && v as u128 > max) {
@@ -535,7 +535,7 @@ pub fn ref_call(b: &Builtin, v: &MVal, kw: &Kw) -> Spec {
                     }
                     let d = match kw.get("divisor") {
                         Some(Int(d)) => *d,
-                        Some(Float(x)) if x.is_finite() && x.trunc() == *x && x.abs() < 1.7e38 => *x as i128,
+                        Some(Float(x)) if x.is_finite() && x.trunc() == *x && *x >= -1.7014118346046923e38 && *x < 1.7014118346046923e38 => *x as i128,
                         _ => return Spec::Err,
                     };
                     match v {
